@@ -8,7 +8,7 @@ import (
 )
 
 var segPool = []string{"a", "b", "c", "d"}
-var specialSegs = []string{".git", ".terraform", "modules", "zzz", "f.txt", "g.txt", "a+b", "ab", "aab", " sp", "-d", ".hid", "ü日", "x(y)", "p|q", "..data", "..x", "a-v2", "a.tf", "a\\b", "bs\\", "caf@E9@", "m@FC@ller.tf", "tab\tx", "nl\nx"}
+var specialSegs = []string{".git", ".terraform", "modules", "zzz", "f.txt", "g.txt", "a+b", "ab", "aab", " sp", "-d", ".hid", "ü日", "x(y)", "p|q", "..data", "..x", "a-v2", "a.tf", "a\\b", "bs\\", "caf@E9@", "m@FC@ller.tf", "tab\tx", "nl\nx", "._x", "._f.txt", "n #1"}
 var fModes = []int{0o644, 0o600, 0o444, 0o400, 0o755, 0o777, 0o640, 0o000, 0o200}
 var dModes = []int{0o755, 0o700, 0o555, 0o500, 0o777, 0o750}
 var fracs = []int64{0, 400000000, 500000000, 600000000, 499999999, 999999999}
@@ -118,6 +118,15 @@ func pickSeg(r *simkit.RNG, k *knobs) string {
 	return simkit.Pick(r, segPool)
 }
 
+func contains(xs []string, x string) bool {
+	for _, y := range xs {
+		if y == x {
+			return true
+		}
+	}
+	return false
+}
+
 func dirOf(p string) string {
 	if i := strings.LastIndex(p, "/"); i >= 0 {
 		return p[:i]
@@ -224,6 +233,19 @@ func genTree(r *simkit.RNG, sc *Scenario, k *knobs) {
 			add(TNode{Root: "ext", Path: "cB/peer", Kind: "link", Target: "../cA"})
 		}
 	}
+	if k.specials && r.Chance(1, 10) {
+		// a module directory nested deep inside a data directory: the built-in exception
+		// for .terraform/modules applies at any depth
+		chain := []string{".terraform", ".terraform/x", ".terraform/x/.terraform", ".terraform/x/.terraform/modules", ".terraform/x/.terraform/modules/m"}
+		for _, d := range chain {
+			if !used["src:"+d] {
+				add(TNode{Root: "src", Path: d, Kind: "dir", Mode: 0o755})
+				dirs = append(dirs, d)
+			}
+		}
+		add(TNode{Root: "src", Path: ".terraform/x/.terraform/modules/m/f", Kind: "file", Mode: 0o644, Tok: "IN-nested;"})
+		add(TNode{Root: "src", Path: ".terraform/x/state", Kind: "file", Mode: 0o644, Tok: "IN-state;"})
+	}
 	n := k.maxNodes
 	for i := 0; i < n*3 && len(sc.Tree) < n+20; i++ {
 		d := simkit.Pick(r, dirs)
@@ -250,6 +272,10 @@ func genTree(r *simkit.RNG, sc *Scenario, k *knobs) {
 			case 1:
 				nd.Size = 600
 			}
+			if b := p[strings.LastIndex(p, "/")+1:]; strings.HasPrefix(b, "._") && r.Chance(1, 2) {
+				// the kind of file macOS archivers add beside the real one, magic number included
+				nd.Tok = "\x00\x05\x16\x07AD-" + strconv.Itoa(tok) + ";"
+			}
 			if k.bigFile && r.Chance(1, 6) {
 				nd.Size = 70000
 				k.bigFile = false
@@ -273,7 +299,7 @@ func genTree(r *simkit.RNG, sc *Scenario, k *knobs) {
 			up := strings.Repeat("../", depth)
 			var opts []string
 			if k.inLinks {
-				opts = append(opts, "sib", "file", "dir", "dangle", "updown", "chain", "via-link")
+				opts = append(opts, "sib", "file", "dir", "dangle", "updown", "chain", "via-link", "via-link-climb")
 				if k.viaRootName {
 					opts = append(opts, "via-root-name")
 				}
@@ -282,7 +308,7 @@ func genTree(r *simkit.RNG, sc *Scenario, k *knobs) {
 				opts = append(opts, "abs-in")
 			}
 			if k.outLinks {
-				opts = append(opts, "out-file", "out-dir", "out-dangle", "sibling-prefix", "case-sibling", "out-abs", "out-chain", "hist-ext", "parent", "out-notdir", "out-loop", "out-abs-unclean")
+				opts = append(opts, "out-file", "out-dir", "out-dangle", "sibling-prefix", "case-sibling", "out-abs", "out-chain", "hist-ext", "parent", "out-notdir", "out-loop", "out-abs-unclean", "via-alias")
 			}
 			if k.hostileLinks {
 				opts = append(opts, "cycle", "self", "loopdir", "fifo", "fifodir", "dircycle")
@@ -341,6 +367,23 @@ func genTree(r *simkit.RNG, sc *Scenario, k *knobs) {
 			case "case-sibling":
 				// a sibling of the source directory whose name differs from it in letter case only
 				nd.Target = up + "../SRC/secret"
+			case "via-link-climb":
+				// through an earlier in-tree link to a directory two or more levels down, then up
+				// again by more levels than the text of the target has gone down
+				var cands []string
+				for _, t := range sc.Tree {
+					if t.Root != "src" || t.Kind != "link" || strings.HasPrefix(t.Target, "/") {
+						continue
+					}
+					res := pathClean(join(dirOf(t.Path), t.Target))
+					if res != "" && !strings.HasPrefix(res, "..") && strings.Count(res, "/") >= 1 && contains(dirs, res) {
+						cands = append(cands, t.Path+strings.Repeat("/..", strings.Count(res, "/")+1)+"/"+simkit.Pick(r, segPool))
+					}
+				}
+				if len(cands) == 0 {
+					continue
+				}
+				nd.Target = up + simkit.Pick(r, cands)
 			case "via-link":
 				// the target path passes through an earlier in-tree link to a directory
 				var cands []string
@@ -364,6 +407,12 @@ func genTree(r *simkit.RNG, sc *Scenario, k *knobs) {
 			case "out-abs-unclean":
 				// an absolute target that is not spelled the shortest way
 				nd.Target = simkit.Pick(r, []string{ExtRoot + "/dir/", "/w//ext/dir", "/w/ext/./dir", ExtRoot + "/dir/sub/..", "/w/ext//file"})
+			case "via-alias":
+				// into the tree by way of a name the tree is also known by (/w/lnk-abs -> /w/src)
+				if len(files) == 0 {
+					continue
+				}
+				nd.Target = simkit.Pick(r, []string{"/w/lnk-abs/", up + "../lnk-abs/"}) + simkit.Pick(r, files)
 			case "out-chain":
 				nd.Target = up + "../ext/chain1"
 			case "hist-ext":
@@ -376,6 +425,10 @@ func genTree(r *simkit.RNG, sc *Scenario, k *knobs) {
 					continue
 				}
 				nd.Target = up + "../src/" + simkit.Pick(r, files)
+				if r.Chance(1, 3) {
+					// the same, with the climb not at the front of the spelling
+					nd.Target = simkit.Pick(r, []string{"./", "zz/../"}) + up + "../src/" + simkit.Pick(r, files)
+				}
 			case "cycle":
 				nd.Target = up + "../ext/cyc1"
 			case "self":
@@ -458,7 +511,7 @@ func genRules(r *simkit.RNG, sc *Scenario, k *knobs) string {
 			continue
 		}
 		if k.degenRules && r.Chance(1, 4) {
-			lines = append(lines, simkit.Pick(r, []string{"   ", "\t", "!", "/", " ! ", "!/", "\\", "a\\", "**", "!**", "**/", "a/**/", "[", "a**b"}))
+			lines = append(lines, simkit.Pick(r, []string{"   ", "\t", "!", "/", " ! ", "!/", "\\", "a\\", "**", "!**", "**/", "a/**/", "[", "a**b", "\ufeff", "\ufeff  ", "\ufeff\t", "\ufeff#c", "\ufeff!"}))
 			continue
 		}
 		ns := 1 + r.Weighted([]int{5, 3, 1})
@@ -504,7 +557,7 @@ func genRules(r *simkit.RNG, sc *Scenario, k *knobs) string {
 	return strings.Join(lines, "\n") + simkit.Pick(r, []string{"\n", "", "\n\n"})
 }
 
-var spellings = []string{"abs", "trail", "dot", "dotdot", "rel", "symlink-abs", "symlink-rel", "symlink-abs-trail", "symlink-abs-dot", "symlink-chain"}
+var spellings = []string{"abs", "trail", "dot", "dotdot", "rel", "symlink-abs", "symlink-rel", "symlink-abs-trail", "symlink-abs-dot", "symlink-chain", "symlink-rel-trail"}
 var cwds = []string{"/cwd", "/w", "/w/src"}
 var wchunks = [][]int{nil, {1}, {7}, {512}, {4096}, {3, 5, 11}}
 
@@ -582,7 +635,7 @@ func genRuns(r *simkit.RNG, sc *Scenario, k *knobs, profile string) {
 			sc.SharedPacker = true
 			sc.History = append(sc.History, "shared:stale-rules")
 		case 0, 1:
-			sc.History = append(sc.History, simkit.Pick(r, []string{"neg-first", "empty-rules", "other-opts", "dot-other-tree", "negated-twin-rules"}))
+			sc.History = append(sc.History, simkit.Pick(r, []string{"neg-first", "empty-rules", "other-opts", "dot-other-tree", "negated-twin-rules", "stale-rules-samelen"}))
 			sc.Runs = append(sc.Runs, run()) // same pack again after the history
 			if sc.History[len(sc.History)-1] == "dot-other-tree" {
 				sc.Runs[len(sc.Runs)-1].Spelling, sc.Runs[len(sc.Runs)-1].Cwd = "rel", "/w/src"
@@ -624,7 +677,7 @@ func genRuns(r *simkit.RNG, sc *Scenario, k *knobs, profile string) {
 			sc.Runs = append(sc.Runs, p)
 		}
 		for i := r.Intn(3); i > 0; i-- {
-			sc.History = append(sc.History, simkit.Pick(r, []string{"neg-first", "other-opts", "empty-rules", "chdir:/tmp", "same", "dot-other-tree", "negated-twin-rules"}))
+			sc.History = append(sc.History, simkit.Pick(r, []string{"neg-first", "other-opts", "empty-rules", "chdir:/tmp", "same", "dot-other-tree", "negated-twin-rules", "stale-rules-samelen"}))
 		}
 		if k.outLinks && r.Chance(1, 3) {
 			// a relative allow-list entry: it means <source>/ext, whatever the working directory
@@ -701,6 +754,9 @@ func genRuns(r *simkit.RNG, sc *Scenario, k *knobs, profile string) {
 	case "hostile":
 		sc.Opts.Deref = r.Chance(3, 4)
 		p := run()
+		if r.Chance(1, 12) {
+			p.Spelling = "symlink-loop" // the source argument is a link whose chain never ends
+		}
 		sc.Runs = []PackRun{p}
 		if k.rules && r.Chance(1, 4) {
 			sc.RulesKind = simkit.Pick(r, []string{"dir", "longline", "fifo"})
